@@ -222,8 +222,12 @@ def run(ctx):
     thorough = ctx.tier == 'thorough'
     ctx.level = 'other'
     ctx.explanation = (
-        'Hybrid. PROVED for all transcriptions (character classes) and all block lists: see functions_under_contract (word segmentation '
-        'agrees with str.split(); print-space box = bounding box of the blocks and the four margins tile the page). BOUNDED on real lxml: '
+        'Hybrid. PROVED for all block lists (any number of text blocks, any block extents; slice of the real to_altoxml_string, see '
+        'functions_under_contract): the print-space box is the bounding box of the text blocks (an empty box at the origin for a page without '
+        'blocks), its height and width are non-negative, every margin / print-space attribute is an int(...) value, and for integer block '
+        'coordinates the four margins and the print space tile the page (top.HEIGHT = ps.VPOS, ps.VPOS + ps.HEIGHT = bottom.VPOS, '
+        'bottom.VPOS + bottom.HEIGHT = page height; likewise horizontally).  The word segmentation and everything that goes through lxml are '
+        'bounded only.  BOUNDED on real lxml: '
         'export never raises; per block and per non-blank line exactly one TextLine in order whose String CONTENTs are transcription.split() '
         '(logical order on Arabic lines); integer geometry; WC in [0,1]; only lines below min_line_confidence are dropped; re-import returns the '
         'same words; over pages of 1..2 blocks x 1..2 lines with 18 transcriptions (single / repeated / leading / trailing blanks, NBSP, tab, thin '
@@ -238,7 +242,7 @@ def run(ctx):
             for vc in r.vcs:
                 vc.func = r.name
         solve.discharge([vc for r in reps for vc in r.vcs], {r.name: r.axioms for r in reps})
-        ctx.add_proof_reports(reps, clause='word segmentation agreement; print space arithmetic')
+        ctx.add_proof_reports(reps, clause='print space = bounding box of the text blocks; integer attributes; margins tile the page')
     except ImportError:
         ctx.notes.append('contracts/alto.py not present: bounded only')
     items = bounded.order(pages(thorough), ctx.seed)
